@@ -106,6 +106,10 @@ func c05File(pkg, imports string, decls []string) string {
 		b.WriteString("import \"old/p\"\n\n")
 	case "block":
 		b.WriteString("import (\n\t\"fmt\"\n\n\t\"old/p\"\n\tnamed \"x/y\"\n)\n\n")
+	case "cgo-only": // the only import declaration is cgo's, with its preamble
+		b.WriteString("/*\n#include <stdio.h>\n*/\nimport \"C\"\n\n")
+	case "separate": // one import declaration per package
+		b.WriteString("import \"fmt\"\n\nimport \"old/p\"\n\nimport named \"x/y\"\n\n")
 	}
 	b.WriteString(strings.Join(decls, "\n\n"))
 	b.WriteString("\n")
@@ -128,7 +132,7 @@ func c05Gen(tier string, emit func(any)) {
 	for _, p := range c05Patches() {
 		importLayouts := []string{"none"}
 		if strings.HasPrefix(p.id, "import") || tier == "thorough" {
-			importLayouts = []string{"none", "single", "block"}
+			importLayouts = []string{"none", "single", "block", "cgo-only", "separate"}
 		}
 		pkgs := []string{"p"}
 		if strings.HasPrefix(p.id, "package") {
